@@ -1,56 +1,15 @@
-(* Proofs about Lang/Escape.v : escape round-trips through the C++ string-literal lexer
-   exactly on strings without a line-end character, is injective, and fails on a raw
-   line end. *)
+(* Proofs about Lang/Escape.v.
+
+   Part I  - the repaired [escape] (control characters escaped): it round-trips through the
+             C++ string-literal lexer for EVERY string, is injective, its image contains no
+             control character at all (in particular no line end), and it coincides with the
+             function before the repair on every string without control characters.
+   Part II - the function before the repair, [escape_quotes_only]: a raw line end breaks the
+             literal, a backslash before a line end corrupts it (what the repair is for). *)
 From Coq Require Import ZArith List Bool Lia.
 From RV Require Import Base.Wire Lang.Escape.
 Import ListNotations.
 Open Scope Z_scope.
-
-(* ------------------------------------------------------------ escape = one pass *)
-
-Definition esc1 (c : Z) : text :=
-  if c =? BSL then [BSL; BSL] else if c =? DQ then [BSL; DQ] else [c].
-
-Lemma replace1_app c by_ a b :
-  replace1 c by_ (a ++ b) = replace1 c by_ a ++ replace1 c by_ b.
-Proof.
-  induction a as [|x a IH]; cbn; [reflexivity|].
-  destruct (x =? c); rewrite IH; [rewrite app_assoc|]; reflexivity.
-Qed.
-
-Lemma escape_flat s : escape s = flat_map esc1 s.
-Proof.
-  unfold escape. induction s as [|x s IH]; [reflexivity|].
-  cbn [replace1 flat_map]. unfold esc1 at 1.
-  destruct (Z.eqb_spec x BSL) as [E|NE].
-  - subst x. rewrite replace1_app. rewrite IH. reflexivity.
-  - cbn [replace1]. destruct (Z.eqb_spec x DQ) as [E2|NE2].
-    + rewrite IH. reflexivity.
-    + rewrite IH. reflexivity.
-Qed.
-
-Lemma esc1_shape c :
-  (c = BSL /\ esc1 c = [BSL; BSL]) \/ (c = DQ /\ esc1 c = [BSL; DQ]) \/
-  (c <> BSL /\ c <> DQ /\ esc1 c = [c]).
-Proof.
-  unfold esc1. destruct (Z.eqb_spec c BSL); [auto|].
-  destruct (Z.eqb_spec c DQ); auto.
-Qed.
-
-(* the image of escape is a concatenation of the three kinds of pieces: every backslash
-   it contains is followed by a backslash or a quote *)
-Lemma escape_pieces s :
-  exists l, escape s = concat l /\
-    Forall (fun w => w = [BSL; BSL] \/ w = [BSL; DQ] \/ exists c, w = [c] /\ c <> BSL /\ c <> DQ) l.
-Proof.
-  rewrite escape_flat. exists (map esc1 s). split.
-  - rewrite flat_map_concat_map. reflexivity.
-  - apply Forall_forall. intros w Hw. apply in_map_iff in Hw as (c & <- & _).
-    destruct (esc1_shape c) as [(_ & ->)|[(_ & ->)|(A & B & ->)]].
-    + left. reflexivity.
-    + right. left. reflexivity.
-    + right. right. exists c. auto.
-Qed.
 
 (* ------------------------------------------------------------ one-step lemmas of the lexer *)
 
@@ -100,26 +59,264 @@ Qed.
 Lemma go_esc_quote acc r : clex_go LEsc acc (DQ :: r) = clex_go LNorm (DQ :: acc) r.
 Proof. reflexivity. Qed.
 
+(* the three letter escapes the repair introduces: no condition on what follows *)
+Lemma go_bsl_n acc r : clex_go LNorm acc (BSL :: 110 :: r) = clex_go LNorm (LF :: acc) r.
+Proof. reflexivity. Qed.
+Lemma go_bsl_r acc r : clex_go LNorm acc (BSL :: 114 :: r) = clex_go LNorm (CR :: acc) r.
+Proof. reflexivity. Qed.
+Lemma go_bsl_t acc r : clex_go LNorm acc (BSL :: 116 :: r) = clex_go LNorm (9 :: acc) r.
+Proof. reflexivity. Qed.
+
 (* the splice itself: backslash + LF disappears in every state *)
 Lemma go_splice_lf st acc r : clex_go st acc (BSL :: LF :: r) = clex_go st acc r.
 Proof. destruct st; reflexivity. Qed.
 
-(* ------------------------------------------------------------ heads of escaped text *)
+(* after THREE octal digits the escape is complete whatever follows - a digit, a hex digit, a
+   backslash, a line splice, the end of the input: the lexer goes on exactly as if it had just
+   decoded the value as an ordinary character *)
+Lemma go_oct3_done_n n : forall s v acc, (length s <= n)%nat -> v <= 255 ->
+  clex_go (LOct 3 v) acc s = clex_go LNorm (v :: acc) s.
+Proof.
+  induction n as [|n IH]; intros s v acc L V.
+  - destruct s; [reflexivity|cbn in L; lia].
+  - destruct s as [|c r]; [reflexivity|]. cbn [length] in L.
+    assert (STEP : (if is_octal c && Nat.ltb 3 3 then clex_go (LOct 4 (v * 8 + (c - 48))) acc r
+                    else if 255 <? v then None
+                    else if c =? DQ then Some (rev (v :: acc), r)
+                    else if (c =? LF) || (c =? CR) then None
+                    else if c =? BSL then clex_go LEsc (v :: acc) r
+                    else clex_go LNorm (c :: v :: acc) r) =
+                   (if c =? DQ then Some (rev (v :: acc), r)
+                    else if (c =? LF) || (c =? CR) then None
+                    else if c =? BSL then clex_go LEsc (v :: acc) r
+                    else clex_go LNorm (c :: v :: acc) r)).
+    { change (Nat.ltb 3 3) with false. rewrite andb_false_r.
+      destruct (Z.ltb_spec 255 v); [lia|reflexivity]. }
+    cbn [clex_go]. destruct (c =? BSL) eqn:CB.
+    + destruct r as [|d r1]; [exact STEP|].
+      destruct (d =? LF); [apply IH; [cbn [length] in L |- *; lia|exact V]|].
+      destruct (d =? CR); [|exact STEP].
+      destruct r1 as [|e r2]; [apply IH; [cbn [length] in L |- *; lia|exact V]|].
+      destruct (e =? LF); apply IH; try exact V; cbn [length] in L |- *; lia.
+    + exact STEP.
+Qed.
+
+Lemma go_oct3_done s v acc : v <= 255 -> clex_go (LOct 3 v) acc s = clex_go LNorm (v :: acc) s.
+Proof. intros V. apply (go_oct3_done_n (length s)); [lia|exact V]. Qed.
+
+(* ------------------------------------------------------------ the shape of esc_char *)
+
+Lemma is_ctl_range c : is_ctl c = true <-> (0 <= c < 32 \/ c = 127).
+Proof.
+  unfold is_ctl. rewrite orb_true_iff, andb_true_iff, Z.leb_le, Z.ltb_lt, Z.eqb_eq. tauto.
+Qed.
+
+Lemma ctl_cases x : is_ctl x = true -> In x (127 :: map Z.of_nat (seq 0 32)).
+Proof.
+  intros H. apply is_ctl_range in H as [H| ->]; [|left; reflexivity].
+  right. apply in_map_iff. exists (Z.to_nat x). split; [lia|]. apply in_seq. lia.
+Qed.
+
+(* every control character's octal escape is read back as the character, in any context *)
+Lemma go_oct3 x acc r : is_ctl x = true -> clex_go LNorm acc (oct3 x ++ r) = clex_go LNorm (x :: acc) r.
+Proof.
+  intros H. assert (V : x <= 255) by (apply is_ctl_range in H; lia).
+  rewrite <- (go_oct3_done r x acc V).
+  apply ctl_cases in H. cbn [seq map Z.of_nat] in H.
+  repeat (destruct H as [<-|H]; [reflexivity|]). destruct H.
+Qed.
+
+Inductive esc_shape (c : Z) : text -> Prop :=
+| ShBsl : c = BSL -> esc_shape c [BSL; BSL]
+| ShDq : c = DQ -> esc_shape c [BSL; DQ]
+| ShLf : c = LF -> esc_shape c [BSL; 110]
+| ShCr : c = CR -> esc_shape c [BSL; 114]
+| ShTab : c = 9 -> esc_shape c [BSL; 116]
+| ShOct : is_ctl c = true -> c <> LF -> c <> CR -> c <> 9 -> esc_shape c (oct3 c)
+| ShPlain : c <> BSL -> c <> DQ -> c <> LF -> c <> CR -> c <> 9 -> is_ctl c = false -> esc_shape c [c].
+
+Lemma esc_char_shape c : esc_shape c (esc_char c).
+Proof.
+  unfold esc_char.
+  destruct (Z.eqb_spec c BSL); [constructor 1; assumption|].
+  destruct (Z.eqb_spec c DQ); [constructor 2; assumption|].
+  destruct (Z.eqb_spec c LF); [constructor 3; assumption|].
+  destruct (Z.eqb_spec c CR); [constructor 4; assumption|].
+  destruct (Z.eqb_spec c 9); [constructor 5; assumption|].
+  destruct (is_ctl c) eqn:K; [constructor 6; assumption|constructor 7; assumption].
+Qed.
+
+Lemma escape_app a b : escape (a ++ b) = escape a ++ escape b.
+Proof. unfold escape. apply flat_map_app. Qed.
+
+Lemma escape_cons x s : escape (x :: s) = esc_char x ++ escape s.
+Proof. reflexivity. Qed.
+
+(* bounds of the three octal digits *)
+Lemma oct3_chars x c : 0 <= x < 512 -> In c (oct3 x) -> c = BSL \/ 48 <= c <= 55.
+Proof.
+  intros R H. unfold oct3 in H. cbn [In] in H.
+  pose proof (Z.div_pos x 64 ltac:(lia) ltac:(lia)).
+  pose proof (Z.div_lt_upper_bound x 64 8 ltac:(lia) ltac:(lia)).
+  pose proof (Z.mod_pos_bound (x / 8) 8 ltac:(lia)).
+  pose proof (Z.mod_pos_bound x 8 ltac:(lia)).
+  destruct H as [<-|[<-|[<-|[<-|[]]]]]; [left; reflexivity|right; lia..].
+Qed.
+
+(* the image of escape contains no control character: neither a line end, nor a tab, nor any
+   other code point below 0x20, nor DEL - the emitted literal is clean source text *)
+Theorem escape_image_clean s c :
+  In c (escape s) -> is_ctl c = false /\ c <> LF /\ c <> CR /\ c <> 9.
+Proof.
+  intros Hc. unfold escape in Hc. apply in_flat_map in Hc as (x & _ & Hc).
+  assert (P : forall k, (k = BSL \/ k = DQ \/ k = 110 \/ k = 114 \/ k = 116 \/ 48 <= k <= 55) ->
+              is_ctl k = false /\ k <> LF /\ k <> CR /\ k <> 9).
+  { intros k K. unfold BSL, DQ, LF, CR in *. split; [|lia].
+    destruct (is_ctl k) eqn:E; [|reflexivity]. apply is_ctl_range in E. lia. }
+  destruct (esc_char_shape x) as [E|E|E|E|E|K A B C|A B C D E K]; cbn [In] in Hc.
+  1-5: destruct Hc as [<-|[<-|[]]]; apply P; auto 10.
+  - apply is_ctl_range in K. apply oct3_chars in Hc; [|lia]. apply P. destruct Hc; auto 10.
+  - destruct Hc as [<-|[]]. auto.
+Qed.
+
+Corollary escape_no_line_end s : no_line_end (escape s).
+Proof. intros c Hc. apply escape_image_clean in Hc. tauto. Qed.
+
+Lemma escaped_head s tail : head_not_line_end tail -> head_not_line_end (escape s ++ tail).
+Proof.
+  intros T. destruct (escape s) as [|d r] eqn:E; [exact T|].
+  cbn. apply (escape_no_line_end s). rewrite E. left. reflexivity.
+Qed.
+
+(* ------------------------------------------------------------ the round trip, for every string *)
+
+(* accumulator-generalised: lexing the escaped text from an ordinary position with content
+   [acc] already decoded yields acc followed by the original string *)
+Lemma go_escaped s : forall acc rest,
+  clex_go LNorm acc (escape s ++ DQ :: rest) = Some (rev acc ++ s, rest).
+Proof.
+  induction s as [|x s IH]; intros acc rest.
+  - cbn [escape flat_map app]. rewrite go_norm_quote. rewrite app_nil_r. reflexivity.
+  - assert (HT : head_not_line_end (escape s ++ DQ :: rest)).
+    { apply escaped_head. cbn. unfold DQ, LF, CR. split; lia. }
+    assert (NEXT : forall v, clex_go LNorm (v :: acc) (escape s ++ DQ :: rest) = Some (rev acc ++ v :: s, rest)).
+    { intros v. rewrite IH. cbn [rev]. rewrite <- app_assoc. reflexivity. }
+    rewrite escape_cons, <- app_assoc.
+    destruct (esc_char_shape x) as [E|E|E|E|E|K A B C|A B C D E K]; try subst x.
+    + cbn [app]. rewrite go_norm_bsl by (cbn; unfold BSL, LF, CR; split; lia).
+      rewrite go_esc_bsl by exact HT. apply NEXT.
+    + cbn [app]. rewrite go_norm_bsl by (cbn; unfold DQ, LF, CR; split; lia).
+      rewrite go_esc_quote. apply NEXT.
+    + cbn [app]. rewrite go_bsl_n. apply NEXT.
+    + cbn [app]. rewrite go_bsl_r. apply NEXT.
+    + cbn [app]. rewrite go_bsl_t. apply NEXT.
+    + rewrite go_oct3 by exact K. apply NEXT.
+    + cbn [app]. rewrite go_norm_plain by assumption. apply NEXT.
+Qed.
+
+Theorem escape_roundtrip s rest :
+  clex_string (DQ :: escape s ++ [DQ] ++ rest) = Some (s, rest).
+Proof.
+  unfold clex_string. change (DQ =? DQ) with true. cbv iota.
+  cbn [app]. rewrite go_escaped. reflexivity.
+Qed.
+
+(* injectivity is a corollary: the lexer is a left inverse *)
+Theorem escape_injective s t : escape s = escape t -> s = t.
+Proof.
+  intros E. pose proof (escape_roundtrip s []) as A. pose proof (escape_roundtrip t []) as B.
+  rewrite E in A. rewrite A in B. injection B as B. exact B.
+Qed.
+
+(* the witnesses of the two repaired findings, and the reason for THREE octal digits *)
+Example roundtrip_witnesses :
+  escape [97; 10; 98] = [97; 92; 110; 98] /\
+  clex_string (c_literal [97; 10; 98]) = Some ([97; 10; 98], []) /\
+  escape [97; 92; 10; 98] = [97; 92; 92; 92; 110; 98] /\
+  clex_string (c_literal [97; 92; 10; 98]) = Some ([97; 92; 10; 98], []) /\
+  escape [1; 49] = [92; 48; 48; 49; 49] /\
+  clex_string (c_literal [1; 49]) = Some ([1; 49], []) /\
+  clex_string (DQ :: [92; 49] ++ [49] ++ [DQ]) = Some ([9], []) /\
+  clex_string (DQ :: [92; 120; 49] ++ [98] ++ [DQ]) = Some ([27], []).
+Proof. vm_compute. repeat split; reflexivity. Qed.
+
+(* non-vacuity: a string with every class of character round-trips; its escaped form is what
+   the implementation prints *)
+Example roundtrip_demo :
+  let s := [97; 92; 34; 39; 63; 63; 47; 37; 233; 10; 13; 9; 0; 27; 55; 127; 92; 10; 92; 92; 34; 92] in
+  escape s = [97; 92; 92; 92; 34; 39; 63; 63; 47; 37; 233; 92; 110; 92; 114; 92; 116; 92; 48; 48; 48;
+              92; 48; 51; 51; 55; 92; 49; 55; 55; 92; 92; 92; 110; 92; 92; 92; 92; 92; 34; 92; 92] /\
+  clex_string (c_literal s ++ [59]) = Some (s, [59]).
+Proof. vm_compute. split; reflexivity. Qed.
+
+(* ------------------------------------------------------------ size of the escaped text *)
+
+Theorem escape_length s :
+  length (escape s) = (length s + length (filter esc_simple s) + 3 * length (filter esc_octal s))%nat.
+Proof.
+  induction s as [|x s IH]; [reflexivity|].
+  rewrite escape_cons, app_length, IH. cbn [filter length].
+  unfold esc_octal, esc_simple.
+  destruct (esc_char_shape x) as [E|E|E|E|E|K A B C|A B C D E K]; try subst x; cbn [length orb andb negb].
+  1-5: cbn; lia.
+  - rewrite K. apply Z.eqb_neq in A, B, C.
+    assert (x =? BSL = false) as -> by (apply Z.eqb_neq; apply is_ctl_range in K; unfold BSL; lia).
+    assert (x =? DQ = false) as -> by (apply Z.eqb_neq; apply is_ctl_range in K; unfold DQ; lia).
+    rewrite A, B, C. unfold oct3. cbn [orb andb negb length]. lia.
+  - apply Z.eqb_neq in A, B, C, D, E. rewrite A, B, C, D, E, K. cbn [orb andb negb length]. lia.
+Qed.
+
+(* ------------------------------------------------------------ nothing changes without control characters *)
+
+Lemma replace1_app c by_ a b :
+  replace1 c by_ (a ++ b) = replace1 c by_ a ++ replace1 c by_ b.
+Proof.
+  induction a as [|x a IH]; cbn; [reflexivity|].
+  destruct (x =? c); rewrite IH; [rewrite app_assoc|]; reflexivity.
+Qed.
+
+Definition esc1 (c : Z) : text :=
+  if c =? BSL then [BSL; BSL] else if c =? DQ then [BSL; DQ] else [c].
+
+Lemma old_escape_flat s : escape_quotes_only s = flat_map esc1 s.
+Proof.
+  unfold escape_quotes_only. induction s as [|x s IH]; [reflexivity|].
+  cbn [replace1 flat_map]. unfold esc1 at 1.
+  destruct (Z.eqb_spec x BSL) as [E|NE].
+  - subst x. rewrite replace1_app. rewrite IH. reflexivity.
+  - cbn [replace1]. destruct (Z.eqb_spec x DQ) as [E2|NE2].
+    + rewrite IH. reflexivity.
+    + rewrite IH. reflexivity.
+Qed.
+
+Theorem escape_agrees_without_control s :
+  (forall c, In c s -> is_ctl c = false) -> escape s = escape_quotes_only s.
+Proof.
+  intros H. rewrite old_escape_flat. unfold escape.
+  induction s as [|c s IH]; [reflexivity|]. cbn [flat_map].
+  rewrite IH by (intros k Hk; apply H; right; exact Hk). f_equal.
+  specialize (H c (or_introl eq_refl)). unfold esc_char, esc1.
+  destruct (c =? BSL); [reflexivity|]. destruct (c =? DQ); [reflexivity|].
+  assert (N : c <> LF /\ c <> CR /\ c <> 9).
+  { unfold LF, CR. repeat split; intros ->; discriminate H. }
+  destruct N as (A & B & C). apply Z.eqb_neq in A, B, C. rewrite A, B, C, H. reflexivity.
+Qed.
+
+(* ============================================================ Part II: before the repair *)
+
+Lemma esc1_shape c :
+  (c = BSL /\ esc1 c = [BSL; BSL]) \/ (c = DQ /\ esc1 c = [BSL; DQ]) \/
+  (c <> BSL /\ c <> DQ /\ esc1 c = [c]).
+Proof.
+  unfold esc1. destruct (Z.eqb_spec c BSL); [auto|].
+  destruct (Z.eqb_spec c DQ); auto.
+Qed.
 
 Lemma esc1_head_not_line_end c rest :
   c <> LF -> c <> CR -> head_not_line_end (esc1 c ++ rest).
 Proof.
   intros A B. destruct (esc1_shape c) as [(_ & ->)|[(_ & ->)|(_ & _ & ->)]]; cbn;
     unfold BSL, LF, CR; try (split; lia). split; assumption.
-Qed.
-
-Lemma escaped_head s tail :
-  no_line_end s -> head_not_line_end tail -> head_not_line_end (flat_map esc1 s ++ tail).
-Proof.
-  intros N T. destruct s as [|x s]; [exact T|].
-  cbn [flat_map]. rewrite <- app_assoc.
-  destruct (N x (or_introl eq_refl)) as [A B].
-  apply esc1_head_not_line_end; assumption.
 Qed.
 
 Lemma no_line_end_tail x s : no_line_end (x :: s) -> no_line_end s.
@@ -137,52 +334,12 @@ Proof.
       * eapply no_line_end_tail; exact N.
 Qed.
 
-(* ------------------------------------------------------------ the round trip *)
-
-(* accumulator-generalised: lexing the escaped text from an ordinary position with content
-   [acc] already decoded yields acc followed by the original string *)
-Lemma go_escaped s : forall acc rest,
-  no_line_end s ->
-  clex_go LNorm acc (flat_map esc1 s ++ DQ :: rest) = Some (rev acc ++ s, rest).
-Proof.
-  induction s as [|x s IH]; intros acc rest N.
-  - cbn [flat_map app]. rewrite go_norm_quote. rewrite app_nil_r. reflexivity.
-  - pose proof (no_line_end_tail _ _ N) as N'.
-    destruct (N x (or_introl eq_refl)) as [XL XC].
-    assert (HT : head_not_line_end (flat_map esc1 s ++ DQ :: rest)).
-    { apply escaped_head; [exact N'|]. cbn. unfold DQ, LF, CR. split; lia. }
-    cbn [flat_map]. rewrite <- app_assoc.
-    destruct (esc1_shape x) as [(-> & ->)|[(-> & ->)|(A & B & ->)]].
-    + (* backslash *)
-      cbn [app]. rewrite go_norm_bsl.
-      * rewrite go_esc_bsl by exact HT. rewrite IH by exact N'.
-        cbn [rev]. rewrite <- app_assoc. reflexivity.
-      * cbn. unfold BSL, LF, CR. split; lia.
-    + (* quote *)
-      cbn [app]. rewrite go_norm_bsl.
-      * rewrite go_esc_quote. rewrite IH by exact N'.
-        cbn [rev]. rewrite <- app_assoc. reflexivity.
-      * cbn. unfold DQ, LF, CR. split; lia.
-    + cbn [app]. rewrite go_norm_plain by assumption. rewrite IH by exact N'.
-      cbn [rev]. rewrite <- app_assoc. reflexivity.
-Qed.
-
-Theorem escape_roundtrip s rest :
-  no_line_end s ->
-  clex_string (DQ :: escape s ++ [DQ] ++ rest) = Some (s, rest).
-Proof.
-  intros N. unfold clex_string. change (DQ =? DQ) with true. cbv iota.
-  rewrite escape_flat. cbn [app]. rewrite go_escaped by exact N. reflexivity.
-Qed.
-
-(* ------------------------------------------------------------ a raw line end breaks the literal *)
-
 Lemma last_cons_ne (x : Z) s d : s <> [] -> last (x :: s) d = last s d.
 Proof. destruct s; [congruence|reflexivity]. Qed.
 
 (* a: the part before the first line end (no line end in it, not ending in a backslash,
    because an escaped final backslash would splice the line end away) *)
-Lemma go_line_end a : forall acc e b rest,
+Lemma old_go_line_end a : forall acc e b rest,
   no_line_end a -> last a 0 <> BSL -> (e = LF \/ e = CR) ->
   clex_go LNorm acc (flat_map esc1 (a ++ e :: b) ++ DQ :: rest) = None.
 Proof.
@@ -222,84 +379,28 @@ Proof.
       * apply IH; assumption.
 Qed.
 
-Theorem escape_line_end_fails a e b rest :
+(* escaping the control characters is NECESSARY: with backslash and quote alone, any string whose
+   first line-end character is not preceded by a backslash yields a literal that does not lex *)
+Theorem old_escape_line_end_fails a e b rest :
   no_line_end a -> last a 0 <> BSL -> (e = LF \/ e = CR) ->
-  clex_string (DQ :: escape (a ++ e :: b) ++ [DQ] ++ rest) = None.
+  clex_string (DQ :: escape_quotes_only (a ++ e :: b) ++ [DQ] ++ rest) = None.
 Proof.
   intros N L E. unfold clex_string. change (DQ =? DQ) with true. cbv iota.
-  rewrite escape_flat. cbn [app]. apply go_line_end; assumption.
+  rewrite old_escape_flat. cbn [app]. apply old_go_line_end; assumption.
 Qed.
 
-(* and when the line end IS preceded by a backslash the literal does not fail but decodes to
+(* and when the line end IS preceded by a backslash the old literal does not fail but decodes to
    something else: the doubled backslash loses its second half to the splice *)
-Example escape_splice_corrupts :
-  clex_string (c_literal [97; 92; 10; 98]) = Some ([97; 8], []).
-Proof. vm_compute. reflexivity. Qed.
+Example old_escape_broken :
+  clex_string (c_literal_old [97; 10; 98]) = None /\
+  clex_string (c_literal_old [97; 92; 10; 98]) = Some ([97; 8], []).
+Proof. vm_compute. split; reflexivity. Qed.
 
-Theorem escape_refuted : exists s, clex_string (c_literal s) = None.
-Proof. exists [97; 10; 98]. vm_compute. reflexivity. Qed.
+(* ============================================================ the expression printer of C01 uses the same function *)
+From RV Require Lang.CAst.
 
-(* ------------------------------------------------------------ injectivity *)
-
-Lemma flat_esc1_inj s : forall t, flat_map esc1 s = flat_map esc1 t -> s = t.
+Lemma cast_escape_same s : CAst.escape s = escape s.
 Proof.
-  induction s as [|x s IH]; intros [|y t] H.
-  - reflexivity.
-  - exfalso. cbn [flat_map] in H.
-    destruct (esc1_shape y) as [(_ & E)|[(_ & E)|(_ & _ & E)]]; rewrite E in H; discriminate H.
-  - exfalso. cbn [flat_map] in H.
-    destruct (esc1_shape x) as [(_ & E)|[(_ & E)|(_ & _ & E)]]; rewrite E in H; discriminate H.
-  - cbn [flat_map] in H.
-    destruct (esc1_shape x) as [(X & EX)|[(X & EX)|(X1 & X2 & EX)]];
-    destruct (esc1_shape y) as [(Y & EY)|[(Y & EY)|(Y1 & Y2 & EY)]];
-    rewrite EX, EY in H; cbn [app] in H.
-    + injection H as H. subst. f_equal. apply IH. exact H.
-    + exfalso. injection H as H1 H2. unfold BSL, DQ in H1. discriminate H1.
-    + exfalso. injection H as H1 H2. apply Y1. symmetry. exact H1.
-    + exfalso. injection H as H1 H2. unfold BSL, DQ in H1. discriminate H1.
-    + injection H as H. subst. f_equal. apply IH. exact H.
-    + exfalso. injection H as H1 H2. apply Y1. symmetry. exact H1.
-    + exfalso. injection H as H1 H2. apply X1. exact H1.
-    + exfalso. injection H as H1 H2. apply X1. exact H1.
-    + injection H as H1 H2. subst. f_equal. apply IH. exact H2.
-Qed.
-
-Theorem escape_injective s t : escape s = escape t -> s = t.
-Proof. rewrite !escape_flat. apply flat_esc1_inj. Qed.
-
-(* non-vacuity: a string with every interesting character satisfies the guard and
-   round-trips; its escaped form is what the implementation prints *)
-Example roundtrip_demo :
-  let s := [97; 92; 34; 39; 63; 63; 47; 37; 233; 92; 92; 34; 92] in
-  no_line_end s /\
-  escape s = [97; 92; 92; 92; 34; 39; 63; 63; 47; 37; 233; 92; 92; 92; 92; 92; 34; 92; 92] /\
-  clex_string (c_literal s ++ [59]) = Some (s, [59]).
-Proof.
-  cbv zeta. split; [|split].
-  - apply no_line_endb_spec. vm_compute. reflexivity.
-  - vm_compute. reflexivity.
-  - vm_compute. reflexivity.
-Qed.
-
-(* ------------------------------------------------------------ size of the escaped text *)
-
-Definition needs_escape (c : Z) : bool := (c =? BSL) || (c =? DQ).
-
-Theorem escape_length s :
-  length (escape s) = (length s + length (filter needs_escape s))%nat.
-Proof.
-  rewrite escape_flat. induction s as [|x s IH]; [reflexivity|].
-  cbn [flat_map filter]. rewrite app_length, IH. unfold esc1, needs_escape.
-  destruct (x =? BSL); cbn [orb]; [cbn [length]; lia|].
-  destruct (x =? DQ); cbn [length]; lia.
-Qed.
-
-(* the escaped text contains no line end unless the string does *)
-Theorem escape_no_new_line_end s : no_line_end s -> no_line_end (escape s).
-Proof.
-  intros N c Hc. rewrite escape_flat in Hc. apply in_flat_map in Hc as (x & Hx & Hc).
-  destruct (esc1_shape x) as [(-> & E)|[(-> & E)|(A & B & E)]]; rewrite E in Hc; cbn in Hc.
-  - destruct Hc as [<-|[<-|[]]]; unfold BSL, LF, CR; split; lia.
-  - destruct Hc as [<-|[<-|[]]]; unfold BSL, DQ, LF, CR; split; lia.
-  - destruct Hc as [<-|[]]. apply N. exact Hx.
+  unfold CAst.escape, escape. induction s as [|c s IH]; [reflexivity|].
+  cbn [flat_map]. rewrite IH. f_equal.
 Qed.
